@@ -87,6 +87,22 @@ CLAIMED = {
         note="Keys come from the library's key generation under a per-case DRBG seed (pooled in the shim, exported to the "
              "reference). Plaintexts are inside the range each scheme admits.",
         tech=PBT + "reference encryption / decryption and protocol formulas from the standards; round-trip, differential and mutation oracles"),
+    "C09": dict(
+        text="Generated-input search over every modular / number-theoretic bn_* function and every scalar recoding: "
+             "reductions (basic, Barrett, Montgomery basic / Comba, pseudo-Mersenne, digit) with operands negative, >= m, "
+             "longer than 2k digits and aimed at 0/1/2 final subtractions; exponentiation (basic, sliding, Montgomery, "
+             "digit, simultaneous 2 / few / lot, CRT) with exponents 0, negative, longer than m and alias patterns; "
+             "inverses, gcd / extended gcd (basic, binary, Lehmer incl. Fibonacci-like and multi-digit-quotient pairs, "
+             "all nine sign patterns, Bezout checked for the GIVEN operands), lcm, Legendre / Jacobi, sqrt, Lagrange / "
+             "evaluation; primality tests on primes, Carmichael numbers, p*q close, prime powers, psi_k and composites "
+             "constructed for the library's fixed Miller-Rabin bases; prime generators (length, structure); recodings "
+             "win / slw / naf / reg / jsf / tnaf / rtnaf / glv / frb / sac for w = 2..8 with digit-set, length, "
+             "sparsity and exact-value validators. Oracles: Python ints, math.gcd / isqrt, sympy.isprime, own Jacobi, "
+             "norm arithmetic in Z[tau], lattice membership. Plus a libFuzzer target with in-target algebraic oracles.",
+        note="Domains follow the callers (documented in notes/NOTES_C09.md section 2). Two known findings: fixed-base "
+             "Miller-Rabin accepts composites constructed for its bases; bn_mod_barrt reports a precision error for one "
+             "capacity edge (m = beta^(DIGS-1), operand of 2*DIGS digits).",
+        tech=PBT + "Python-int / sympy number-theory references and definition-level recoding validators; coverage-guided fuzzing (libFuzzer) with in-target algebraic oracles"),
     "C12": dict(
         text="Generated-input search over g1_is_valid / g2_is_valid / gt_is_valid in both directions (members: reference "
              "multiples of generators, pairing outputs; non-members: reference-lifted curve / twist points, small-order "
